@@ -7,7 +7,7 @@ from fractions import Fraction
 from harness.common import frac
 
 ALT_UNITS = {
-    "time": ["s", "min", "hour", "day", "year"],
+    "time": ["s", "min", "hour", "day", "year", "ms"],
     "data": ["B", "kB", "MB", "GB", "TB"],
     "mass": ["g", "kg", "tonne"],
     "power": ["W", "kW", "mW"],
@@ -88,7 +88,7 @@ def hours_of(q, unit_info):
     return frac(q["m"]) * scale / 3600
 
 
-def safe_duration(q, unit_info, eps=Fraction(1, 10 ** 6)):
+def safe_duration(q, unit_info, eps=Fraction(1, 10 ** 9)):
     """a duration is *safe* for floor/ceil when its value in hours is an exact integer expressed in
     hours, or farther than eps from any integer (discontinuity guard at generation time)."""
     h = hours_of(q, unit_info)
@@ -100,9 +100,11 @@ def safe_duration(q, unit_info, eps=Fraction(1, 10 ** 6)):
 
 def gen_spec(rng, unit_info, *, n_patterns=None, max_len=40, allow_gpu=False, allow_onprem=True,
              allow_fixed=True, allow_delete=False, allow_dumps=False, random_units=True,
-             zones=None, same_window=False, allow_multi_hour_jobs=True):
+             zones=None, same_window=False, allow_multi_hour_jobs=True, single_zone=False):
     """Draw a random well-formed system spec."""
     zones = zones or ZONES
+    if single_zone:
+        zones = [rng.choice(zones)]
     nst = rng.choice([1, 1, 2])
     nsv = rng.choice([1, 2, 2, 3])
     njb = rng.choice([1, 2, 3, 4])
@@ -132,6 +134,11 @@ def gen_spec(rng, unit_info, *, n_patterns=None, max_len=40, allow_gpu=False, al
     def duration(kind, param, lo_h, hi_h):
         for _ in range(50):
             r = rng.random()
+            if lo_h > 0 and ((kind == "jobs" and r < 0.12) or (kind == "steps" and r < 0.04)):
+                # very short events: milliseconds and below (legal, and a classic place for "is it zero?" slips)
+                v = Q(rng.choice([0.05, 0.4, 2, 7.5, 40]), "ms")
+                if safe_duration(v, unit_info):
+                    return v
             if r < 0.25:
                 v = Q(rng.randint(max(0, math.ceil(lo_h)), max(1, math.floor(hi_h))), "hour")
             else:
@@ -313,7 +320,7 @@ def spec_is_safe(spec, unit_info):
     """Discontinuity guard at generation time: every duration that goes through floor/ceil in the
     code (request durations, storage durations, cumulated step times, journey durations) is either
     an exact integer number of hours written in hours or farther than 1e-6 h from an integer."""
-    eps = Fraction(1, 10 ** 6)
+    eps = Fraction(1, 10 ** 9)
 
     def ok_sum(qs):
         h = sum((hours_of(q, unit_info) for q in qs), Fraction(0))
